@@ -3,12 +3,13 @@
 set -e
 cd "$(dirname "$0")"
 mkdir -p build evidence
-for f in sm3ref sm4ref sm2ref sharef aesref zucref chacharef gf128ref; do
+for f in sm3ref sm4ref sm2ref sharef aesref zucref chacharef gf128ref constructions; do
   [ -f ref/$f.py ] && (cd ref && python3 $f.py >/dev/null)
 done
 for f in spec/*.tla; do
   (cd spec && tla-sany "$(basename $f)" > /dev/null 2>&1) || { echo "SANY failed: $f"; (cd spec && tla-sany "$(basename $f)" | tail -20); exit 1; }
 done
+python3 tools/check_consts.py
 python3 tools/mkcreds.py build/creds
 python3 -c "import sys; sys.path.insert(0,'tools'); import vlib; vlib.build_lib('asan')"
 echo "setup ok"
